@@ -2117,6 +2117,10 @@ export class ObjectRuntype extends BaseRuntype {
         optionalized.add(k);
       } else {
         properties[k] = raw;
+        // an optional property whose type is only null/undefined has no null branch to strip
+        if (item instanceof OptionalFieldRuntype) {
+          optionalized.add(k);
+        }
       }
       popPath(ctx);
     }
